@@ -91,6 +91,9 @@ fn exec<L: Locale>(f: &[&str], tables: &Tables) -> String {
             let (mut path, mut search, mut hash) = (f[2].to_string(), f[3].to_string(), f[4].to_string());
             let mut cur = loc::<L>(f[5]);
             let by_path = f[6] == "p";
+            // the hash is fed at every step in the convention of the start URL: browser form ("#top", what
+            // leptos_router stores on the client: window.location.hash unmodified) or bare ("top")
+            let browser_form = f[4].starts_with('#');
             let map = map_of::<L>(tables);
             let mut outs = vec![];
             for step in f[7].split(',').filter(|x| !x.is_empty()) {
@@ -100,7 +103,7 @@ fn exec<L: Locale>(f: &[&str], tables: &Tables) -> String {
                 let (p, s, h) = split_url(&u);
                 path = p;
                 search = s;
-                hash = h;
+                hash = if browser_form && !h.is_empty() { format!("#{h}") } else { h };
                 cur = Some(new);
                 outs.push(u);
             }
